@@ -624,8 +624,16 @@ def run_pdhg_conv(case):
     import sigpy as sp
     rng = rng_for(case)
     n, m = case["n"], case["m"]
+    ints = sum(case["rs"]) % 3 == 1
     c2 = dict(case, steps="scalar", frac=0.9, ratio=1.0, via="func")
+    if ints:
+        # ||A|| = 1, tau = 0.5 and sigma = 2 with the dual step as a NumPy integer / an integer
+        # array (admissible: tau sigma ||A||^2 = 1): the acceleration rescales the steps and
+        # must not truncate them
+        c2.update(frac=1.0, rs=[0])
     M, y, nA, tau, sigma, Tv, Sv, A, AH, shape_x, shape_u, proxfc, dt = pdhg_setup(c2, rng)
+    if ints:
+        sigma = np.int64(2) if sum(case["rs"]) % 2 else np.full(shape_u, 2, dtype=np.int64)
     lam = case["lam"] * nA ** 2 * 0.3
     g = ("l2", lam)
     xs, cert = OPT.solve_composite(M, y, g)
@@ -640,7 +648,8 @@ def run_pdhg_conv(case):
     alg = sp.alg.PrimalDualHybridGradient(proxfc, sp.prox.L2Reg(shape_x, lam), A, AH, x, u,
                                           tau, sigma, gamma_primal=gp, gamma_dual=gd,
                                           max_iter=K, tol=0)
-    sig = "pdhg-conv|%s|%s" % (case["gamma"], "c" if case["cplx"] else "r")
+    sig = "pdhg-conv|%s|%s%s" % (case["gamma"], "c" if case["cplx"] else "r",
+                                 "|int-sigma" if ints else "")
     errs = {}
     for k in range(1, K + 1):
         alg.update()
